@@ -1,5 +1,6 @@
 (* C04 Rebuilding with nothing changed does nothing; edits rerun only their cone.
-   Property theorems only; proofs in proofs/NoopProofs.v, definitions in model/Noop.v. *)
+   Property theorems only; proofs in proofs/NoopProofs.v, NoopBridge.v, NoopCone2.v, definitions in
+   model/Noop.v. *)
 From Coq Require Import List NArith Bool.
 From SV Require Import lib.Bytes model.Graph model.GraphInv model.GraphDump model.Noop gen.GenNoop
   proofs.NoopProofs proofs.NoopBridge proofs.NoopCone2.
@@ -7,9 +8,10 @@ Import ListNotations.
 Open Scope N_scope.
 
 (* ------------------------------------------------------------------------------------------ *)
-(* The full sentence, on histories of transactions of the stored workflow.  NOT proved as a    *)
-(* whole: its first two clauses are C04_noop_after_successful_history; for the third see        *)
-(* C04_cone_invariant_partial2 and design.d/C04.md (what stays partial).                        *)
+(* The full sentence (Definition C04_full, model/Noop.v), on histories of transactions of the    *)
+(* stored workflow, is REFUTED as written (C04_full_refuted).  Its first two clauses are proved  *)
+(* for all histories (C04_noop_after_successful_history); for the third see                      *)
+(* C04_cone_invariant_partial2 and design.d/C04.md (clauses, what stays partial).                *)
 (* ------------------------------------------------------------------------------------------ *)
 
 (* successful_history (model/Noop.v): a history ends in a successful build when nothing runs, no
